@@ -20,11 +20,59 @@ def _never_none(e):
     return isinstance(e, (ast.BinOp, ast.UnaryOp)) or (isinstance(e, ast.Constant) and isinstance(e.value, (int, float)) and not isinstance(e.value, bool))
 
 
+def const_truth(t):
+    """True / False for a test made of numeric constants only (`1 > 0`, `not -1 > 0`, left behind when a helper was spliced with
+    a constant argument), else None"""
+    if isinstance(t, ast.Constant) and isinstance(t.value, (bool, int, float)):
+        return bool(t.value)
+    if isinstance(t, ast.UnaryOp) and isinstance(t.op, ast.Not):
+        v = const_truth(t.operand)
+        return None if v is None else (not v)
+    if isinstance(t, ast.BoolOp):
+        vs = [const_truth(v) for v in t.values]
+        if isinstance(t.op, ast.And):
+            return False if False in vs else (None if None in vs else True)
+        return True if True in vs else (None if None in vs else False)
+    if isinstance(t, ast.Compare) and len(t.ops) == 1 and isinstance(t.ops[0], (ast.Is, ast.IsNot)) and \
+            isinstance(t.left, ast.Constant) and isinstance(t.comparators[0], ast.Constant):
+        same_ = (t.left.value is t.comparators[0].value) if (t.left.value is None or t.comparators[0].value is None) else None
+        if same_ is None:
+            return None
+        return same_ if isinstance(t.ops[0], ast.Is) else (not same_)
+    if isinstance(t, ast.Compare) and len(t.ops) == 1:
+        a, b = facts.const_num(t.left), facts.const_num(t.comparators[0])
+        if a is None or b is None:
+            return None
+        op = t.ops[0]
+        table = {ast.Gt: a > b, ast.GtE: a >= b, ast.Lt: a < b, ast.LtE: a <= b, ast.Eq: a == b, ast.NotEq: a != b}
+        return table.get(type(op))
+    return None
+
+
+def fold_const(e):
+    """copy of e with conditional expressions on constant tests replaced by the branch taken"""
+    import copy
+
+    class T(ast.NodeTransformer):
+        def visit_IfExp(self, n):
+            self.generic_visit(n)
+            v = const_truth(n.test)
+            return n if v is None else (n.body if v else n.orelse)
+    return T().visit(copy.deepcopy(e))
+
+
+def is_dead(conds):
+    """the path condition contains a test that is constantly false: the statement is never executed"""
+    return any(const_truth(t) is not None and const_truth(t) != pol for t, pol in conds)
+
+
 def norm_conds(conds):
     """path conditions with the 'optional value' idiom resolved: `(E if C else None) is not None` says C (E arithmetic), and
     `(None if C else E) is None` says C; conjunctions that appear are split"""
     out = []
     for t, pol in conds:
+        if const_truth(t) is not None and const_truth(t) == pol:
+            continue            # constantly true: says nothing
         t2, p2 = facts.norm_cond(t, pol)
         m = match("$x is None", t2)
         if m and isinstance(m['x'], ast.IfExp):
@@ -159,6 +207,8 @@ def first_fit_and_greedy(ctx, o, S):
                 if pol0 and any(t0 is lt_ for lt_ in loop_tests):
                     continue        # the step bound of a `while steps < max_steps` search loop, not a condition on the day
                 conds += facts.split_conj(exs.expand(t0, cfg.node_containing(t0)), pol0)
+            if is_dead(conds):
+                continue
             conds = norm_conds(conds)
             extra = []
             okfree = False
@@ -188,6 +238,8 @@ def first_fit_and_greedy(ctx, o, S):
     fill = prog.func(S['fill'])
     ex = Expander(prog, fill, ctx.typer)
     for c in sched.reserve_calls(ctx, fill):
+        if sched.while_loop_of(fill, c) is None and len(sched.reserve_calls(ctx, fill)) > 1:
+            continue        # a booking outside the day loop (a second booking path): conservation / encoding judge it
         # ... and on EVERY visited day with free > 0: the search accepts a day on `free > 0` alone, so any further condition on
         # the booking lets the search pick a start day on which nothing is booked (the remainder stays idle)
         lp = sched.while_loop_of(fill, c)
@@ -199,10 +251,14 @@ def first_fit_and_greedy(ctx, o, S):
             for t0, pol0 in fcfg.conditions(fcfg.node_containing(c)):
                 if t0 is lp.test or not any(x is t0 for st_ in lp.body for x in ast.walk(st_)):
                     continue
+                amt0 = ex.expand(c.args[3]) if len(c.args) == 4 else None
+                ops0 = (facts.flatten_lattice(amt0, 'min') or []) if amt0 is not None else []
                 for a, pa in facts.split_conj(ex.expand(t0, fcfg.node_containing(t0)), pol0):
                     st = sched.sign_test(a, pa)
                     if st and st[1] == '>' and (parse_free(st[0], S['balance']) or (isinstance(st[0], ast.Name) and st[0].id == gv)):
                         continue
+                    if st and st[1] == '>' and any(same(st[0], m_) for m_ in ops0):
+                        continue        # the free term of this booking in a spelling the rule does not parse: still `its free > 0`
                     extra.append((a, pa))
             # the step bound (`if days > max_steps: raise ..`) placed before the booking is not a condition on the day
             raising = [n_.test for n_ in walk_no_nested(fill.node) if isinstance(n_, ast.If) and n_.body and isinstance(n_.body[-1], ast.Raise) and not n_.orelse]
@@ -259,7 +315,7 @@ def _unresolved(f, e):
         if isinstance(x, ast.Name):
             if isinstance(x.ctx, ast.Load) and x.id not in f.params and len(fl.defs_of(x.id)) > 1:
                 out.append(x)
-        elif parse_cap(x) or sched._resv_call(x):
+        elif parse_cap(x) or sched._resv_call(x) or match("datetime.now()", x) or match("datetime.today()", x):
             return
         elif isinstance(x, ast.Call):
             if isinstance(x.func, ast.Name) and x.func.id in ('min', 'max', 'abs', 'round', 'float', 'int', 'timedelta', 'datetime', 'sum'):
@@ -305,6 +361,8 @@ def encoding(ctx, o, ps: PassShape, strict_zero: bool = True):
     fl = flow_of(f)
     res_p, usage_p, task_p = f.params[1], f.params[2], f.params[4]
     for r in [n for n in walk_no_nested(f.node) if isinstance(n, ast.Return)]:
+        if is_dead(facts.node_conditions(prog, f, r, ctx.typer)):
+            continue            # e.g. the backward branch of a direction-generic search spliced with direction = +1
         v = ex.expand(r.value)
         if any(isinstance(x, ast.IfExp) and not parse_resv(x, S['balance']) for x in ast.walk(v)):
             # an optional intermediate (`share = .. if free > 0 else None; if share is not None: return ..`): take the branch the
@@ -423,7 +481,17 @@ def encoding(ctx, o, ps: PassShape, strict_zero: bool = True):
             continue
         resvs = _outer_only(_find(v, lambda n: parse_resv(n, S['balance'])))
         if len(resvs) != 1:
-            unres = _unresolved(fill, v)
+            lt_ = sched.sign_test(loop.test) if loop is not None else None
+            skip_ = {attr_or_name(dvar)} | ({lt_[0].id} if lt_ and isinstance(lt_[0], ast.Name) else set())
+            unres = [x for x in _unresolved(fill, v) if not (isinstance(x, ast.Name) and x.id in skip_)]
+            # a local that only ever holds what the ledger's reserve() returned (the task's own last booking) is resolved: it is
+            # not the ledger sum of the day
+            own = [x for x in unres if isinstance(x, ast.Name) and all(
+                d_.kind == 'assign' and d_.value is not None and (facts.const_num(d_.value) == 0 or d_.value in rc_all) for d_ in flf.defs_of(x.id))]
+            if own and not resvs:
+                o.refute(fill, r, r, f"the date share of the last/first work day is computed from `{own[0].id}`, the amount this task booked in its last "
+                                     f"iteration, not from the ledger sum of that day: what other tasks (or earlier bookings) hold on the day is ignored")
+                continue
             if not resvs and unres:
                 o.undecided(fill, r, r, f"fill result `{src(v)[:80]}` contains `{src(unres[0])[:40]}`, which the rule cannot resolve")
             else:
